@@ -68,7 +68,34 @@ pub struct CallOut {
     pub events: u64,
     pub early: bool,
     pub trivial: bool,
+    /// how often each instrumented code path of the library was taken by this call
+    pub paths: [u64; hooks::NPATHS],
 }
+
+impl CallOut {
+    pub fn count_paths(&self, loc: &mut crate::stats::Local) {
+        for (i, &n) in self.paths.iter().enumerate() {
+            if n > 0 {
+                loc.add(PATH_LABELS[i], n);
+            }
+        }
+    }
+}
+
+pub const PATH_LABELS: [&str; hooks::NPATHS] = [
+    "path: intersection found with the upper neighbour on insertion",
+    "path: intersection found with the lower neighbour on insertion",
+    "path: intersection found between the new neighbours after a removal",
+    "path: overlap sharing the left end found (fields recomputed)",
+    "path: overlap not sharing the left end found",
+    "path: divide_segment bumped the division point by one ulp (corner case 1)",
+    "path: divide_segment swapped left/right of the split-off piece (corner case 2)",
+    "path: sweep line did not contain the segment to be removed",
+    "path: contour closed early at its initial point",
+    "path: contour attached as a hole",
+    "path: contour started without a lower result edge",
+    "path: collapsed input edge skipped",
+];
 
 pub fn n_edges(a: &MP, b: &MP) -> u64 {
     (mp_edges(a).len() + mp_edges(b).len()) as u64
@@ -167,6 +194,7 @@ pub fn call_full(a: &MP, b: &MP, op: Operation, ft: Ft, pairing: Pairing) -> Cal
         events: hooks::events(),
         early: hooks::early_break_taken(),
         trivial: hooks::trivial_taken(),
+        paths: hooks::paths(),
     }
 }
 
